@@ -32,8 +32,9 @@ type BB<WR> = <<WR as WordRead>::Word as DoubleType>::DoubleType;
 ///
 /// The peek word is equal to the bit buffer. The value returned
 /// by [`peek_bits`](crate::traits::BitRead::peek_bits) contains at least as
-/// many bits as the word size plus one (extended with zeros beyond end of
-/// stream).
+/// many bits as the word size (extended with zeros beyond end of stream): a
+/// peek performs at most one refill, so starting from an empty buffer only one
+/// word is available.
 ///
 /// This implementation is usually faster than
 /// [`BitReader`](crate::impls::BitReader).
@@ -94,7 +95,7 @@ where
     /// ```
     #[must_use]
     pub fn new(backend: WR) -> Self {
-        check_tables(WR::Word::BITS + 1);
+        check_tables(WR::Word::BITS);
         Self {
             backend,
             buffer: BB::<WR>::ZERO,
